@@ -94,7 +94,7 @@ def strategy(tier):
             extra.append(st.fixed_dictionaries({"op": st.just("cross_assign"), "leaf": st.sampled_from(containers)}))
         base = ops.single_op(spec)
         return st.fixed_dictionaries({"spec": st.just(spec), "observer": st.sampled_from(["before", "middle", "after"]),
-                                      "ops": st.lists(st.one_of(base, base, base, *extra), min_size=2, max_size=n)})
+                                      "ops": st.lists(ops.weighted((3, base), (1, st.one_of(*extra))) if extra else base, min_size=2, max_size=n)})
     # lists and dicts are what can be shared by accident: over-weight them
     return worlds.schema_spec(tier).flatmap(hist)
 
